@@ -20,7 +20,11 @@ RULE = ("every shape m,l,n in 1..9 x 4 flag pairs with integer entries for matmu
         "for matmul_blocked (quick: 2 per shape, thorough: all); non-conformable and malformed operands; random real "
         "shapes up to 64 with 4-5 block sizes each; xtx/transpose for k,p in 1..9 and random up to 64; every Dot method x "
         "ownership form x operand kinds (mm shapes 1..9^3, mv/vm 1..9^2 x 3 vector lengths, vv lengths 0..40 and random "
-        "to 200). non-trivial = distinct (op, flags/method, ownership, shapes, block size)")
+        "to 200). Strata: exact special values mixed into real data; dimensions 2^k-1, 2^k, 2^k+1 up to 65; m*l*n around 32768 "
+        "and the 63/64/65 corners; integer data times 2^p (p to +-1000, exact equality) and real data against its power-of-two "
+        "scaled copy (bit-exact equivariance); zeros facing inf/nan (IEEE class of every entry); vector / operand lengths "
+        "that are multiples or divisors of the contracted dimension (must panic); inner products of lengths 8k-1, 8k, 8k+1 up "
+        "to 4097; block sizes at dimension +-1, 2^k, 2^20, 2^40. non-trivial = distinct (op, flags/method, ownership, shapes, block size)")
 EXHAUSTIVE = {"quick": False, "thorough": True}
 NOT_PROVED = [
     "floating-point rounding: the theorems are exact-arithmetic statements (commutative semiring); for f64 the oracle "
